@@ -7,6 +7,11 @@ use crate::value::{CheapClone, Guarded, JsObjectRef, JsString, JsValue, Property
 
 /// Initialize String.prototype with all string methods.
 /// The prototype object must already exist in `interp.string_prototype`.
+/// Longest string a native will build from a script-supplied length. Larger
+/// requests are refused with a RangeError ("Invalid string length") instead of
+/// asking the allocator for an impossible amount of memory.
+const MAX_STRING_LENGTH: usize = (1 << 29) - 24;
+
 pub fn init_string_prototype(interp: &mut Interpreter) {
     let proto = interp.string_prototype.clone();
 
@@ -663,7 +668,15 @@ pub fn string_repeat(
     args: &[JsValue],
 ) -> Result<Guarded, JsError> {
     let s = interp.to_js_string(&this);
-    let count = args.first().map(|v| v.to_number() as usize).unwrap_or(0);
+    let count = args.first().map(|v| v.to_number()).unwrap_or(0.0);
+    if count < 0.0 || count.is_infinite() {
+        return Err(JsError::range_error("Invalid count value"));
+    }
+    // NaN converts to 0; the product is checked before anything is allocated
+    let count = count as usize;
+    if s.as_str().len().saturating_mul(count) > MAX_STRING_LENGTH {
+        return Err(JsError::range_error("Invalid string length"));
+    }
     Ok(Guarded::unguarded(JsValue::String(JsString::from(
         s.as_str().repeat(count),
     ))))
@@ -850,6 +863,9 @@ pub fn string_pad_start(
 ) -> Result<Guarded, JsError> {
     let s = interp.to_js_string(&this);
     let target_length = args.first().map(|v| v.to_number() as usize).unwrap_or(0);
+    if target_length > MAX_STRING_LENGTH {
+        return Err(JsError::range_error("Invalid string length"));
+    }
     let pad_string = match args.get(1) {
         Some(v) => interp.to_js_string(v),
         None => interp.intern(" "),
@@ -879,6 +895,9 @@ pub fn string_pad_end(
 ) -> Result<Guarded, JsError> {
     let s = interp.to_js_string(&this);
     let target_length = args.first().map(|v| v.to_number() as usize).unwrap_or(0);
+    if target_length > MAX_STRING_LENGTH {
+        return Err(JsError::range_error("Invalid string length"));
+    }
     let pad_string = match args.get(1) {
         Some(v) => interp.to_js_string(v),
         None => interp.intern(" "),
